@@ -120,6 +120,11 @@ def _forms(tier):
             allf.append(("dowdom", (wd, n), "{} {}.".format(de, n), "<dow> N."))
             if n in (1, 13, 28, 29, 30, 31):
                 canon.append(("dowdom", (wd, n), "{} {}".format(en, _ord(n)), "<dow> Nth"))
+            # the usual connectors around the pair ('am Donnerstag den 21.', 'on Thursday the 21st')
+            if n in (1, 5, 13, 21, 28, 29, 30, 31):
+                allf.append(("dowdom", (wd, n), "am {} den {}.".format(de, n), "am <dow> den N."))
+                allf.append(("dowdom", (wd, n), "{} den {}.".format(de, n), "<dow> den N."))
+                allf.append(("dowdom", (wd, n), "on {} the {}".format(en, _ord(n)), "on <dow> the Nth"))
             if n >= 6:
                 # day of month written first ('14. Mittwoch', '14th Wed'); below 6 'Nth <weekday>' also reads as the N-th such weekday of a month
                 allf.append(("dowdom", (wd, n), "{} {}".format(_ord(n), en), "Nth <dow>"))
@@ -230,5 +235,9 @@ def run_case(case):
             why = "no_resolution"
         else:
             why = "not_a_date"
-        out["v"] = [viol({"kind": kind, "form": key, "why": why}, "{!r} at ts={} -> {} expected {}".format(text, ts_s, fmt(got), fmt(exp)), exp, got)]
+        sig = {"kind": kind, "form": key, "why": why}
+        if key in ("am <dow> den N.", "<dow> den N.", "on <dow> the Nth"):
+            # is it the default depth limit that loses the reading?  (the same text without the limit)
+            sig["cause"] = "depth_limit_truncation" if res_obs(parse(text, ts, max_stack_depth=0)) == exp else "other"
+        out["v"] = [viol(sig, "{!r} at ts={} -> {} expected {}".format(text, ts_s, fmt(got), fmt(exp)), exp, got)]
     return out
